@@ -1,1 +1,36 @@
-/-! # C08 — property theorems (stub: not built yet) -/
+import PymocaVerif.Lemmas.FlattenSpell
+/-!
+# C08 — modifications take effect with Modelica precedence in either spelling
+(first part: spelling)
+-/
+namespace PymocaVerif.Flatten
+
+/-- Desugaring does not see the spelling: the fully nested respelling of a modification list
+    (`a.b.c = 1` written `a(b(c = 1))`) desugars to the same `(path, expression)` list … -/
+theorem desugar_nested_spelling (pre : Path) (ms : List SMod) :
+    desugarList pre (toNestedList ms) = desugarList pre ms := desugarList_toNested pre ms
+
+example : desugarList [] (toNestedList [.mk ["a", "x"] [.mk ["start"] [] (some (.num 1))] (some (.num 2))]) =
+    [⟨["a", "x", "start"], .num 1⟩, ⟨["a", "x"], .num 2⟩] := by decide
+
+/-- … and so does the fully dotted one (`a(x(start = 1) = 2)` written `a.x.start = 1, a.x = 2`). -/
+theorem desugar_dotted_spelling (pre : Path) (ms : List SMod) :
+    desugarList pre (toDottedList [] ms) = desugarList pre ms := respelling_toDotted pre ms
+
+example : desugarList [] (toDottedList [] [.mk ["a"] [.mk ["x"] [.mk ["start"] [] (some (.num 1))] (some (.num 2))] none]) =
+    [⟨["a", "x", "start"], .num 1⟩, ⟨["a", "x"], .num 2⟩] := by decide
+
+/-- Equivalent spellings never flatten to different models: respelling every modification list
+    of a library (declarations, extends clauses, type definitions) by any function that desugaring
+    cannot see — in particular `toNestedList` and `toDottedList []` — leaves the result of
+    flattening (flat model or rejection) unchanged, for every library and target. -/
+theorem spelling_invariant {f : List SMod → List SMod} (hf : Respelling f) (src : SLib) (target : Path) :
+    flattenSrc (respellList f src) target = flattenSrc src target := flattenSrc_respell hf src target
+
+theorem spelling_invariant_nested_dotted (src : SLib) (target : Path) :
+    flattenSrc (respellList toNestedList src) target = flattenSrc (respellList (toDottedList []) src) target := by
+  rw [spelling_invariant respelling_toNested, spelling_invariant respelling_toDotted]
+
+example : Respelling toNestedList ∧ Respelling (toDottedList []) := ⟨respelling_toNested, respelling_toDotted⟩
+
+end PymocaVerif.Flatten
